@@ -12,6 +12,12 @@
 (*             a hash of the document so that all are used equally)        *)
 (*   notations dot and slash (they only affect the printed text, so the    *)
 (*             re-resolution theorem is stated per position and notation)  *)
+(* Family "side": from every generated document the documents with        *)
+(* anchored / aliased KEYS (K, optionally L) and one MERGE KEY (a hash on  *)
+(* the rightmost spine merges an earlier hash of scalars, anchored M) are  *)
+(* derived together with their side structure (YPathsSearch: kanchor,      *)
+(* kalias, merges, merged; WellFormedSide is checked on each); the same    *)
+(* theorems are required of them.                                          *)
 (* Terms that give the same match table on the document are one class:     *)
 (* the search depends on the terms only through that table, so evaluating  *)
 (* one table per class covers every term of the vocabulary.                *)
@@ -39,6 +45,11 @@ CONSTANTS Rich,          \* BOOLEAN: the larger term vocabulary
           OptSample,     \* option combinations per document (48 = the full product)
           ExprCap,       \* expressions listed per class (all are covered by the theorems; these are replayed)
           Shard, Shards, \* emit only documents of this shard
+          Family,        \* "base": the generator's documents; "side": the documents derived from them that carry
+                         \* anchored / aliased keys and a merge key (side structure of YPathsSearch)
+          SideKinds,     \* side family: which derived documents - "key" (key anchors only), "merge" (a merge key, with
+                         \* and without key anchors)
+          MaxKeyAnchors, \* side family: 1 = one key anchor K (with at most one alias); 2 = also a second anchored key L
           Exempt         \* TRUE: T2/T4 are not required inside the deviation classes of the pinned designs
                          \* (PinnedDefects); FALSE with a pinned design = a configuration that must be violated
 
@@ -66,14 +77,15 @@ Lowers == {LowerOf[c] : c \in Uppers}
 SafeCh == Digits \cup Uppers \cup Lowers \cup {"."}
 SimpleText(t) == t # "" /\ \A i \in 1..Len(t) : Ch(t, i) \in SafeCh
 FixedTerms == IF Rich THEN {"a", "1", "zz", "A", "0.5", "b"} ELSE {"a", "1", "zz"}
-DocTexts(d) == {d[i].v : i \in ScalarIds(d)} \cup {KeyOf(d, i).v : i \in KeyedIds(d)} \cup AnchorNames(d)
-TermsOf(d) == {t \in DocTexts(d) : SimpleText(t)} \cup FixedTerms
-Ts(d) == {Terms(inv, op, t) : inv \in BOOLEAN, op \in Ops, t \in TermsOf(d)}
+DocTexts(d, sx) == {d[i].v : i \in ScalarIds(d)} \cup {KeyOf(d, i).v : i \in KeyedIds(d)} \cup AnchorNames(d) \cup KAnchorNames(sx)
+TermsOf(d, sx) == {t \in DocTexts(d, sx) : SimpleText(t)} \cup FixedTerms
+Ts(d, sx) == {Terms(inv, op, t) : inv \in BOOLEAN, op \in Ops, t \in TermsOf(d, sx)}
 
 \* Every comparison any document of this configuration can ask for, evaluated once (TLC evaluates a
 \* constant definition a single time): the universe of haystacks and terms is fixed by the pools.
 PoolOf(sq) == {sq[i] : i \in 1..Len(sq)}
-HayU == {Hay(p.t, p.v) : p \in PoolOf(ScalarPool) \cup PoolOf(KeyPool) \cup PoolOf(SetPool)} \cup {Hay("str", a) : a \in AnchorPool}
+SideAnchors == IF Family = "side" THEN {"K", "L", "M"} ELSE {}        \* key anchors K, L; the merged hash's anchor M
+HayU == {Hay(p.t, p.v) : p \in PoolOf(ScalarPool) \cup PoolOf(KeyPool) \cup PoolOf(SetPool)} \cup {Hay("str", a) : a \in AnchorPool \cup SideAnchors}
 TermU == {t \in {h.v : h \in HayU} : SimpleText(t)} \cup FixedTerms
 TU == {Terms(inv, op, t) : inv \in BOOLEAN, op \in Ops, t \in TermU}
 MT == [T \in TU |-> [h \in HayU |-> [m |-> Hit(T, h), s |-> SilentT(T, h)]]]
@@ -101,27 +113,31 @@ ResOne(d, i) ==
    ok |-> a.err = "" /\ a.ids = pl /\ b.err = "" /\ b.ids = pl]
 
 (* ---- T2..T4: one (table, options) evaluation ---- *)
-Core(d, tb, O) ==
-  LET rs == SearchRun(d, tb, O)  mt == MatchingM(d, tb, O)  cls == DevClassR(d, tb, O, mt) IN
-  [exp |-> SortIds(ExpectedOf(d, O, mt)), hit |-> SortIds(mt), mir |-> Ids(rs.out),
-   cls |-> cls, info |-> InfoCase(d, tb, O), log |-> rs.log,
-   ok |-> /\ PathsCanonicalR(d, rs.out)
-          /\ ((Exempt /\ cls # "") \/ (SoundCompleteR(d, O, rs.out, mt) /\ ExpandsExactlyR(d, O, rs.out, mt)))]
+Core(d, sx, tb, O) ==
+  LET rs == SearchRunX(d, sx, tb, O)  mt == MatchingX(d, sx, tb, O)  cls == DevClassX(d, sx, tb, O, mt) IN
+  [exp |-> SortIds(ExpectedOfX(d, sx, O, mt)), hit |-> SortIds(mt), mir |-> Ids(rs.out),
+   cls |-> cls, info |-> InfoCaseX(d, sx, tb, O, mt), log |-> rs.log,
+   ok |-> /\ PathsCanonicalX(d, sx, rs.out)
+          /\ ((Exempt /\ cls # "") \/ (SoundCompleteX(d, sx, O, rs.out, mt) /\ ExpandsExactlyX(d, sx, O, rs.out, mt)))]
 
 \* Per sampled option combination the terms fall into classes by the part of their table the search can
-\* consult under these options (Sig: that part written as a number).  One evaluation per class (on the
+\* consult under these options (Sig: that part written as two numbers).  One evaluation per class (on the
 \* table of a representative; a second member is evaluated as a cross-check of the classing); classes
 \* with the same outcome are written as one case listing expressions of each - all are covered by the
 \* theorems, ExprCap of them are replayed.
 Bit(b, k) == IF b THEN 2 ^ k ELSE 0
 RECURSIVE SumOver(_, _)
 SumOver(f, Q) == IF Q = {} THEN 0 ELSE LET x == CHOOSE y \in Q : TRUE IN f[x] + SumOver(f, Q \ {x})
-Sig(d, tb, O) ==
-  SumOver([i \in 2..Len(d) |->
-             Bit(d[i].k = "s" /\ (O.vals \/ InSet(d, i)) /\ tb.val[i], i)
-           + Bit(O.keys /\ i \in KeyedIds(d) /\ tb.key[i], 8 + i)
-           + Bit(O.refs /\ d[i].anchor # "" /\ d[i].alias = 0 /\ tb.ref[d[i].anchor], 16 + i)], 2..Len(d))
-  + Bit(O.vals /\ tb.setv, 24) + Bit((O.vals \/ HasSet(d)) /\ tb.ival, 25) + Bit(O.keys /\ tb.ikey, 26) + Bit(O.refs /\ tb.iref, 27)
+IsMergeRef(d, sx, i) == \E u \in 1..Len(d) : \E r \in 1..Len(sx.merges[u]) : sx.merges[u][r] = i
+Sig(d, sx, tb, O) ==
+  <<SumOver([i \in 2..Len(d) |->
+               Bit(d[i].k = "s" /\ (O.vals \/ InSet(d, i)) /\ tb.val[i], i)
+             + Bit(O.keys /\ i \in KeyedIds(d) /\ tb.key[i], 12 + i)], 2..Len(d)),
+    SumOver([i \in 2..Len(d) |->
+               Bit((O.refs \/ (O.va /\ IsMergeRef(d, sx, i))) /\ d[i].anchor # "" /\ d[i].alias = 0 /\ tb.ref[d[i].anchor], i)
+             + Bit(O.refs /\ sx.kanchor[i] # "" /\ i \notin sx.kalias /\ tb.ref[sx.kanchor[i]], 12 + i)], 2..Len(d))
+    + Bit(O.vals /\ tb.setv, 24) + Bit((O.vals \/ HasSet(d)) /\ tb.ival, 25) + Bit(O.keys /\ tb.ikey, 26)
+    + Bit((O.refs \/ (O.va /\ HasMerges(d, sx))) /\ tb.iref, 27)>>
 
 Cap(s) == IF Len(s) > ExprCap THEN SubSeq(s, 1, ExprCap) ELSE s
 \* The terms are numbered (tsq) so that everything per term is a sequence: TLC applies functions over
@@ -132,38 +148,78 @@ PerOptOut(n, xs, sg, cores) ==
   {[o |-> n, x |-> LET cs == {c \in DOMAIN cores : cores[c] = g} IN Cap(SetToSeq({xs[i] : i \in {k \in DOMAIN sg : sg[k] \in cs}})),
     exp |-> g.exp, hit |-> g.hit, mir |-> g.mir, cls |-> g.cls, info |-> g.info, log |-> g.log, ok |-> g.ok]
    : g \in {cores[c] : c \in DOMAIN cores}}
-PerOpt(d, xs, tabs, n) ==       \* xs[j], tabs[j]: expression text and table of the j-th terms
+PerOpt(d, sx, xs, tabs, n) ==       \* xs[j], tabs[j]: expression text and table of the j-th terms
   LET O == OptOf(n)
       N == Len(tabs)
-      sg == [j \in 1..N |-> Sig(d, tabs[j], O)]
+      sg == [j \in 1..N |-> Sig(d, sx, tabs[j], O)]
       classes == {sg[j] : j \in 1..N}
       rep == [c \in classes |-> CHOOSE j \in 1..N : sg[j] = c]                     \* first member (TLC's CHOOSE takes the first)
       alt == [c \in classes |-> N + 1 - (CHOOSE k \in 1..N : sg[N + 1 - k] = c)]     \* last member
-      cores == [c \in classes |-> LET g == Core(d, tabs[rep[c]], O) IN
-                                  [g EXCEPT !.ok = @ /\ (alt[c] = rep[c] \/ Core(d, tabs[alt[c]], O) = g)]]
+      cores == [c \in classes |-> LET g == Core(d, sx, tabs[rep[c]], O) IN
+                                  [g EXCEPT !.ok = @ /\ (alt[c] = rep[c] \/ Core(d, sx, tabs[alt[c]], O) = g)]]
   IN UNION {PerOptOut(n, xs, pk.sg, pk.cores) : pk \in {[sg |-> sg, cores |-> cores]}}
 \* (pk is bound by a set constructor, not by LET or as an argument: TLC hands a lazily evaluated argument on
 \* unevaluated into every iteration of a set constructor, and would rebuild the tables for each option)
-Cases(d) ==
-  UNION {UNION {PerOpt(d, pk.xs, pk.tabs, n) : n \in Sampled(d)} :
-         pk \in {LET tsq == SetToSeq(Ts(d)) IN
-                 [xs |-> [j \in 1..Len(tsq) |-> Expr(tsq[j])], tabs |-> [j \in 1..Len(tsq) |-> TabWith(d, tsq[j], HitM, SilM)]]}}
+Cases(d, sx) ==
+  UNION {UNION {PerOpt(d, sx, pk.xs, pk.tabs, n) : n \in Sampled(d)} :
+         pk \in {LET tsq == SetToSeq(Ts(d, sx)) IN
+                 [xs |-> [j \in 1..Len(tsq) |-> Expr(tsq[j])], tabs |-> [j \in 1..Len(tsq) |-> TabWith(d, sx, tsq[j], HitM, SilM)]]}}
+
+(* ---- the side family: documents derived from a generated document ---- *)
+\* key anchors: K on the key of position p, optionally an alias of it on a later pair with the same key text;
+\* with MaxKeyAnchors = 2 also L on the key of another position
+KeySides(d) ==
+  LET n0 == NoSide(d)
+      one == UNION {{[n0 EXCEPT !.kanchor = [i \in 1..Len(d) |-> IF i = p \/ i \in Q THEN "K" ELSE ""], !.kalias = Q]
+                     : Q \in {{}} \cup {{q} : q \in {y \in KeyedIds(d) : y > p /\ KeyOf(d, y) = KeyOf(d, p)}}}
+                    : p \in KeyedIds(d)}
+      two == IF MaxKeyAnchors < 2 THEN {} ELSE
+             UNION {{[k EXCEPT !.kanchor[p2] = "L"] : p2 \in {y \in KeyedIds(d) : k.kanchor[y] = ""}} : k \in one}
+  IN one \cup two
+\* one merge: the hash u, whose subtree ends the document (so the merged-in pairs are appended to the table),
+\* merges an earlier hash t of scalars, which gets the anchor M
+FlatMap(d, t) == d[t].k = "map" /\ Len(d[t].kids) > 0 /\ \A j \in 1..Len(d[t].kids) : d[d[t].kids[j]].k = "s"
+SpineMap(d, u) == u # Root /\ d[u].k = "map" /\ Cardinality(SubtreeIds(d, u)) = Len(d) - u + 1
+MergeInto(d, ks, t, u) ==
+  LET idxs == SelectSeq([j \in 1..Len(d[t].kids) |-> j], LAMBDA j : \A o \in 1..Len(d[u].keys) : d[u].keys[o] # d[t].keys[j])
+      n == Len(idxs)
+      src == [k \in 1..n |-> d[t].kids[idxs[k]]]
+      new == [k \in 1..n |-> [d[src[k]] EXCEPT !.par = u,
+                               !.alias = IF d[src[k]].anchor = "" THEN 0 ELSE IF d[src[k]].alias # 0 THEN d[src[k]].alias ELSE src[k]]]
+      d1 == [d EXCEPT ![t].anchor = "M", ![u].kids = @ \o [k \in 1..n |-> Len(d) + k], ![u].keys = @ \o [k \in 1..n |-> d[t].keys[idxs[k]]]]
+  IN [d |-> d1 \o new,
+      sx |-> [kanchor |-> ks.kanchor \o [k \in 1..n |-> ks.kanchor[src[k]]],
+              kalias |-> ks.kalias \cup {Len(d) + k : k \in {y \in 1..n : ks.kanchor[src[y]] # ""}},
+              merges |-> [i \in 1..(Len(d) + n) |-> IF i = u THEN <<t>> ELSE <<>>],
+              merged |-> (Len(d) + 1)..(Len(d) + n)]]
+Variants(d) ==
+  LET sides == {NoSide(d)} \cup KeySides(d)
+      pairs == {<<t, u>> \in (2..Len(d)) \X (2..Len(d)) : t < u /\ FlatMap(d, t) /\ SpineMap(d, u)}
+  IN (IF "key" \in SideKinds THEN {[d |-> d, sx |-> k] : k \in KeySides(d)} ELSE {})
+     \cup (IF "merge" \in SideKinds THEN {MergeInto(d, k, p[1], p[2]) : k \in sides, p \in pairs} ELSE {})
 
 ChunkSize == 10
-RECURSIVE WriteChunks(_, _, _, _)
-WriteChunks(dd, res, cs, from) ==
+RECURSIVE WriteChunks(_, _, _, _, _)
+WriteChunks(dd, sx, res, cs, from) ==
   IF from > Len(cs) THEN TRUE
-  ELSE /\ CSVWrite("%1$s", <<ToJson([doc |-> dd, res |-> IF from = 1 THEN res ELSE <<>>,
+  ELSE /\ CSVWrite("%1$s", <<ToJson([doc |-> dd, sx |-> sx, res |-> IF from = 1 THEN res ELSE <<>>,
                                      cases |-> SubSeq(cs, from, IF from + ChunkSize - 1 > Len(cs) THEN Len(cs) ELSE from + ChunkSize - 1)])>>, IOEnv.CASES_OUT)
-       /\ WriteChunks(dd, res, cs, from + ChunkSize)
+       /\ WriteChunks(dd, sx, res, cs, from + ChunkSize)
 
 ShardEnv == NatVal(IOEnv.SHARD)     \* cfg: Shard <- ShardEnv lets the harness pick the shard (by seed)
 MineShard == (Len(doc) + Len(doc[Len(doc)].v) + Len(doc[Len(doc)].keys) + HashAcc(doc, 1)) % Shards = Shard
 
+\* theorems and emission for one document with its side structure (sx as a JSON-able record: sets as sequences)
+SideJson(sx) == [kanchor |-> sx.kanchor, kalias |-> SortIds(sx.kalias), merges |-> sx.merges, merged |-> SortIds(sx.merged)]
+CheckOne(d, sx) ==
+  \A pk \in {[res |-> [j \in 1..(Len(d) - 1) |-> ResOne(d, j + 1)], cs |-> SetToSeq(Cases(d, sx))]} :   \* (bound, not LET: see PerOptOut)
+     /\ WellFormedSide(d, sx)
+     /\ \A j \in 1..Len(pk.res) : pk.res[j].ok                             \* T1
+     /\ \A j \in 1..Len(pk.cs) : pk.cs[j].ok                               \* T2-T4 (+ the classing cross-check)
+     /\ WriteChunks(d, SideJson(sx), pk.res, pk.cs, 1)
+
 Check ==
   (fresh /\ MineShard) =>
-    \A pk \in {[res |-> [j \in 1..(Len(doc) - 1) |-> ResOne(doc, j + 1)], cs |-> SetToSeq(Cases(doc))]} :   \* (bound, not LET: see PerOptOut)
-       /\ \A j \in 1..Len(pk.res) : pk.res[j].ok                             \* T1
-       /\ \A j \in 1..Len(pk.cs) : pk.cs[j].ok                             \* T2-T4 (+ the classing cross-check)
-       /\ WriteChunks(doc, pk.res, pk.cs, 1)
+    IF Family = "base" THEN CheckOne(doc, NoSide(doc))
+    ELSE \A v \in Variants(doc) : CheckOne(v.d, v.sx)
 =============================================================================
